@@ -28,6 +28,7 @@ seed = int(sys.argv[1]) if len(sys.argv) > 1 else 0
 tier = sys.argv[2] if len(sys.argv) > 2 else "quick"
 rng = np.random.default_rng(seed)
 tmp = tempfile.mkdtemp()
+__import__("atexit").register(__import__("shutil").rmtree, tmp, True)
 data_dir = os.path.join(os.path.dirname(iodata.__file__), "test", "data")
 c02, c15 = [], []
 cases = {"c02": 0, "c15": 0}
